@@ -30,7 +30,23 @@ func c18TypeD(shape string) TypeD {
 	return d
 }
 
-func c18Source(soft bool, shape string) j.Resource {
+func c18Source(soft bool, shape string) j.Resource { return c18SourceV(soft, shape, 0) }
+
+// variant 1: byte strings that are empty but not nil (they marshal as "", not as null)
+func c18SourceV(soft bool, shape string, variant int) j.Resource {
+	r := c18SourceV0(soft, shape)
+	if variant == 1 {
+		r.Set("y", []byte{})
+		py := []byte{}
+		r.Set("py", &py)
+		r.Set("ps", Ptr(""))
+		r.Set("pi", Ptr(int(0)))
+		r.Set("many", []string{})
+	}
+	return r
+}
+
+func c18SourceV0(soft bool, shape string) j.Resource {
 	r := c18TypeD(shape).NewRes(soft)
 	r.Set("id", "src")
 	r.Set("s", "v")
@@ -91,6 +107,19 @@ func c18Muts() []c18Mut {
 			}
 		}},
 		{"delete(Attrs(), \"s\")", func(r j.Resource) { delete(r.Attrs(), "s") }},
+		// the soft resource's type is an exported pointer: edits made through it
+		{"Type.AddAttr(extra3)", func(r j.Resource) {
+			if sr, ok := r.(*j.SoftResource); ok && sr.Type != nil {
+				_ = sr.Type.AddAttr(j.Attr{Name: "extra3", Type: j.AttrTypeString})
+			}
+		}},
+		{"Type.RemoveAttr(s) + Type.Name = renamed", func(r j.Resource) {
+			if sr, ok := r.(*j.SoftResource); ok && sr.Type != nil {
+				sr.Type.RemoveAttr("s")
+				sr.Type.RemoveRel("one")
+				sr.Type.Name = "renamed"
+			}
+		}},
 		{"GetType().AddAttr(extra2)", func(r j.Resource) {
 			t := r.GetType()
 			_ = t.AddAttr(j.Attr{Name: "extra2", Type: j.AttrTypeInt})
@@ -147,11 +176,24 @@ type c18Sys struct {
 	der     j.Resource
 	muts    []c18Mut
 	initErr string
+	// Reading a resource is an operation too (a lazily copying implementation
+	// un-shares on the first read), so Apply only acts. The twin is an equal pair
+	// that lags one operation behind: what is read from it is what the other
+	// side showed before the last operation.
+	twin    *c18Sys
+	pending int
 }
 
 func c18New(soft bool, how, shape string) *c18Sys {
-	y := &c18Sys{how: how + "/" + shape, muts: c18Muts()}
-	y.src = c18Source(soft, shape)
+	y := c18NewV(soft, how, shape, 0)
+	y.twin = c18NewV(soft, how, shape, 0)
+	y.pending = -1
+	return y
+}
+
+func c18NewV(soft bool, how, shape string, variant int) *c18Sys {
+	y := &c18Sys{how: how + "/" + shape, muts: c18Muts(), pending: -1}
+	y.src = c18SourceV(soft, shape, variant)
 	if p := Try(func() {
 		c := y.src.(j.Copier)
 		if how == "Copy" {
@@ -165,37 +207,65 @@ func c18New(soft bool, how, shape string) *c18Sys {
 	return y
 }
 
-func (y *c18Sys) Key() string { return c18Read(y.src) + " || " + c18Read(y.der) + " || " + mc.Snap(y.src, y.der) }
+// (the deep snapshot is taken BEFORE anything is read through the interface)
+func (y *c18Sys) Key() string {
+	snap := mc.Snap(y.src, y.der)
+	return snap + " || " + c18Read(y.src) + " || " + c18Read(y.der)
+}
 
-func (y *c18Sys) Apply(op int) (fails []mc.Violation, fatal bool) {
-	side := "source"
-	target, other := y.src, y.der
-	if op >= len(y.muts) {
-		side = "derived"
-		target, other = y.der, y.src
+// act performs operation op (a mutation of one side, or the read-everything op) on this pair
+func (y *c18Sys) act(op int) (panicked bool) {
+	if op == 2*len(y.muts) {
+		_, _ = c18Read(y.src), c18Read(y.der)
+		return false
 	}
-	m := y.muts[op%len(y.muts)]
+	target := y.src
+	if op >= len(y.muts) {
+		target = y.der
+	}
+	return Try(func() { y.muts[op%len(y.muts)].do(target) }) != ""
+}
+
+func (y *c18Sys) sig() string {
 	impl := "wrap"
 	if _, ok := y.src.(*j.SoftResource); ok {
 		impl = "soft"
 	}
-	sig := fmt.Sprintf("C18:%s:%s:", impl, y.how)
+	return fmt.Sprintf("C18:%s:%s:", impl, y.how)
+}
+
+func (y *c18Sys) Apply(op int) (fails []mc.Violation, fatal bool) {
 	if y.initErr != "" {
-		return []mc.Violation{{Sig: sig + "derive-panic", Msg: fmt.Sprintf("%s.%s() panicked: %s", impl, y.how, y.initErr)}}, true
+		return []mc.Violation{{Sig: y.sig() + "derive-panic", Msg: fmt.Sprintf("%s() panicked: %s", y.how, y.initErr)}}, true
 	}
-	before := c18Read(other)
-	if p := Try(func() { m.do(target) }); p != "" {
-		// a mutation that panics (e.g. marshaling a wrapped struct after a field was
-		// added to its type maps by hand) is not C18's business: the state is not
-		// expanded, the other side is still compared below
-		fatal = true
+	if y.pending >= 0 {
+		y.twin.act(y.pending)
 	}
-	if after := c18Read(other); after != before {
-		other2 := "derived object"
-		if side == "derived" {
-			other2 = "source"
+	y.pending = op
+	// a mutation that panics (e.g. marshaling a wrapped struct after a field was
+	// added to its type maps by hand) is not C18's business: the state is not
+	// expanded, the other side is still compared in Final
+	return nil, y.act(op)
+}
+
+// Final: the last operation must not have changed anything read from the other side.
+func (y *c18Sys) Final() (fails []mc.Violation, fatal bool) {
+	op := y.pending
+	if op < 0 || op == 2*len(y.muts) || y.initErr != "" {
+		return nil, false
+	}
+	side, other, twinOther, other2 := "source", y.der, y.twin.der, "derived object"
+	if op >= len(y.muts) {
+		side, other, twinOther, other2 = "derived", y.src, y.twin.src, "source"
+	}
+	m := y.muts[op%len(y.muts)]
+	before, after := c18Read(twinOther), c18Read(other)
+	if after != before {
+		impl := "wrap"
+		if _, ok := y.src.(*j.SoftResource); ok {
+			impl = "soft"
 		}
-		fails = append(fails, mc.Violation{Sig: sig + "shared:" + m.name,
+		fails = append(fails, mc.Violation{Sig: y.sig() + "shared:" + m.name,
 			Msg: fmt.Sprintf("%s %s(): %s on the %s changed what is read from the %s:\n  before: %s\n  after:  %s", impl, y.how, m.name, side, other2, before, after)})
 	}
 	return
@@ -208,8 +278,11 @@ func c18BFS(c *Ctx, soft bool, how, shape string) *mc.BFS {
 	}
 	muts := c18Muts()
 	return &mc.BFS{
-		Name: fmt.Sprintf("C18/%s-%s-%s", implName(soft), how, shape), NOps: 2 * len(muts), MaxDepth: depth, Workers: c.Workers, R: c.R,
+		Name: fmt.Sprintf("C18/%s-%s-%s", implName(soft), how, shape), NOps: 2*len(muts) + 1, MaxDepth: depth, Workers: c.Workers, R: c.R,
 		OpName: func(i int) string {
+			if i == 2*len(muts) {
+				return "read everything from both"
+			}
 			side := "source: "
 			if i >= len(muts) {
 				side = "derived: "
@@ -228,9 +301,10 @@ func c18Initial(x *mc.Exec) {
 	if soft {
 		shape = c18Shapes[x.Choose(len(c18Shapes), "shape")]
 	}
-	y := c18New(soft, how, shape)
+	variant := x.Choose(2, "values")
+	y := c18NewV(soft, how, shape, variant)
 	x.R.Add("transitions", 1)
-	x.R.Mark("nontrivial", mc.Hash(soft, how, shape))
+	x.R.Mark("nontrivial", mc.Hash(soft, how, shape, variant))
 	sig := fmt.Sprintf("C18:%s:%s:", implName(soft), how)
 	if y.initErr != "" {
 		x.Fail(sig+"derive-panic", "%s.%s() panicked: %s", implName(soft), how, y.initErr)
@@ -242,6 +316,15 @@ func c18Initial(x *mc.Exec) {
 		}
 		if got, want := FieldNames(y.der.GetType()), FieldNames(y.src.GetType()); fmt.Sprint(got) != fmt.Sprint(want) {
 			x.Fail(sig+"copy-fields", "%s Copy(): fields %v, source has %v", implName(soft), got, want)
+		}
+		// the same values also means the same payload (an empty byte string is not a null one)
+		t := y.src.GetType()
+		var ms, md []byte
+		if p := Try(func() {
+			ms = j.MarshalResource(y.src, "", FieldNames(t), map[string][]string{t.Name: RelNames(t)})
+			md = j.MarshalResource(y.der, "", FieldNames(t), map[string][]string{t.Name: RelNames(t)})
+		}); p != "" || string(ms) != string(md) {
+			x.Fail(sig+"copy-marshals-differently", "%s Copy(): the copy marshals differently from its source (panic %q):\n  source: %s\n  copy:   %s", implName(soft), p, ms, md)
 		}
 	} else {
 		z := c18TypeD(shape).NewRes(soft)
@@ -438,7 +521,7 @@ func init() {
 		Harness{Name: "C18/first-wrapper", Body: c18FirstWrapper}, Harness{Name: "C18/soft-newfunc", Body: c18SoftNewFunc})
 	Register(&Prop{
 		ID: "C18",
-		Rule: "Engine B: for {soft, wrapped} x {Copy(), New()} (soft also for a type without relationships and a type without attributes) a source resource holding a byte string, a pointer to a byte string, nullable pointers, a time and an unsorted 3-element to-many list and a 1-element to-many list is derived, then ALL histories (depth <= 3 quick / 4 thorough) of 18 mutations applied to either side (Set of several fields and id, AddAttr/AddRel/RemoveField on its type, deleting from / adding to the maps returned by Attrs(), Rels() and GetType(), MarshalResource with relationship data (sorts in place), Filter '=' on the to-many (sorts in place), writing element 0 of the slices obtained from Get for []byte, []string and *[]byte) are explored with deep-snapshot de-duplication; after every mutation everything readable from the OTHER side must be unchanged. Same for Type.Copy under AddAttr/RemoveAttr/AddRel/RemoveRel. Engine A: the derived object right after derivation equals its source (Copy) / is zero-valued (New). Every state is a distinct pair of heaps",
+		Rule: "Engine B: for {soft, wrapped} x {Copy(), New()} (soft also for a type without relationships and a type without attributes) a source resource holding a byte string, a pointer to a byte string, nullable pointers, a time and an unsorted 3-element to-many list and a 1-element to-many list is derived, then ALL histories (depth <= 3 quick / 4 thorough) of 20 mutations applied to either side plus the operation 'read everything from both' (Set of several fields and id, AddAttr/AddRel/RemoveField on its type, edits through the soft resource's exported Type pointer, deleting from / adding to the maps returned by Attrs(), Rels() and GetType(), MarshalResource with relationship data (sorts in place), Filter '=' on the to-many (sorts in place), writing element 0 of the slices obtained from Get for []byte, []string and *[]byte) are explored with deep-snapshot de-duplication; nothing is read between the operations of a history (reading is an operation): after the last mutation everything readable from the OTHER side must equal what an equal pair that underwent all but that mutation shows. Same for Type.Copy under AddAttr/RemoveAttr/AddRel/RemoveRel. Engine A: the derived object right after derivation equals its source and marshals identically, also when its byte strings are empty but non-nil (Copy) / is zero-valued (New). Every state is a distinct pair of heaps",
 		Assumptions: []string{"writing through a nullable pointer obtained from Get (other than the slice behind *[]byte) is not judged: the statement lists slices only"},
 		Harnesses: hs,
 	})
